@@ -75,6 +75,47 @@ theorem AllNL.of_index {P : Expr → Prop} : ∀ {es : List Expr},
       have := hh (i + 1) (by simp; omega)
       simpa using this⟩
 
+mutual
+theorem AllN.imp2 {P Q : Expr → Prop} (h : ∀ x, AllN P x → Q x) : ∀ (e : Expr), AllN P e → AllN Q e
+  | .rule n m sm b, he => ⟨h _ he, AllN.imp2 h b he.2⟩
+  | .seq es, he => ⟨h _ he, AllNL.imp2 h es he.2⟩
+  | .choice es, he => ⟨h _ he, AllNL.imp2 h es he.2⟩
+  | .opt e, he => ⟨h _ he, AllN.imp2 h e he.2⟩
+  | .rep e, he => ⟨h _ he, AllN.imp2 h e he.2⟩
+  | .rep1 e, he => ⟨h _ he, AllN.imp2 h e he.2⟩
+  | .repExact e n, he => ⟨h _ he, AllN.imp2 h e he.2⟩
+  | .repMin e n, he => ⟨h _ he, AllN.imp2 h e he.2⟩
+  | .repMax e n, he => ⟨h _ he, AllN.imp2 h e he.2⟩
+  | .repMinMax e m n, he => ⟨h _ he, AllN.imp2 h e he.2⟩
+  | .andP e, he => ⟨h _ he, AllN.imp2 h e he.2⟩
+  | .notP e, he => ⟨h _ he, AllN.imp2 h e he.2⟩
+  | .group e t, he => ⟨h _ he, AllN.imp2 h e he.2⟩
+  | .push e, he => ⟨h _ he, AllN.imp2 h e he.2⟩
+  | .ident n t, he => h _ he
+  | .str _, he => h _ he
+  | .ci _, he => h _ he
+  | .range _ _, he => h _ he
+  | .pushLit _, he => h _ he
+  | .peek, he => h _ he
+  | .pop, he => h _ he
+  | .drop, he => h _ he
+  | .peekAll, he => h _ he
+  | .popAll, he => h _ he
+  | .peekSlice _ _, he => h _ he
+  | .anyB, he => h _ he
+  | .soiB, he => h _ he
+  | .eoiB, he => h _ he
+  | .uprop _, he => h _ he
+  | .skipUntil _, he => h _ he
+  | .optChoice _ _, he => h _ he
+theorem AllNL.imp2 {P Q : Expr → Prop} (h : ∀ x, AllN P x → Q x) : ∀ (es : List Expr), AllNL P es → AllNL Q es
+  | [], _ => trivial
+  | e :: es, he => ⟨AllN.imp2 h e he.1, AllNL.imp2 h es he.2⟩
+end
+
+theorem AllN.imp {P Q : Expr → Prop} (h : ∀ x, P x → Q x) {e : Expr} (he : AllN P e) : AllN Q e :=
+  AllN.imp2 (fun x hx => h x hx.root) e he
+
 /-! ### the region `_skip` walks through -/
 
 /-- `_skip`'s walk from `e` (through groups, alternatives, references and — conservatively —
